@@ -202,6 +202,9 @@ func NewPkgInfo(c *core.Ctx, rel string) *PkgInfo {
 }
 
 // Instrs iterates over all instructions of the package's source functions.
+// Callers: static callers of fn inside the package.
+func (p *PkgInfo) Callers(fn *ssa.Function) []*ssa.Function { return p.callers[fn] }
+
 func (p *PkgInfo) Instrs(f func(fn *ssa.Function, in ssa.Instruction)) {
 	for _, fn := range p.Funcs {
 		for _, b := range fn.Blocks {
